@@ -15,7 +15,7 @@ LEVEL = 'exploration'
 RULE = ('Hypothesis: request type {AuthnRequest, LogoutRequest, AttributeQuery -> IdP; LogoutRequest -> SP} x binding {Redirect, POST, SOAP} x requester {signing key in metadata, encryption-only key in metadata, no key in metadata} x signed {no, issuer key, foreign key} x '
         'receiver {no requirement, want_authn_requests_signed, want_authn_requests_only_with_valid_cert} x Destination {own, foreign, near miss of an own endpoint (suffix, query, case, scheme, prefix), other own endpoint, absent} x IssueInstant offset {0, +-1 h, +-(1 day) +- 2 s, +-10 d, -400 d} (independent of each other) x mutation {none, missing '
         'required attribute, other request type at this entry point, wrong root element, issuer unknown, truncated or garbled base64 / deflate / envelope layer, 1-3 step tree '
-        'mutation script (edit, move, wrap, signature relocation, XSW construction) applied after signing}; plus the enumerated catalogue of XSW constructions (original parked in 7 places x 4 ID modes x 4 signature modes x 2 positions x stripped or not) over a signed request of every type and binding. Non-trivial = a mutation or a signature requirement is involved; '
+        'mutation script (edit, move, wrap, signature relocation, XSW construction) applied after signing}; plus key roll-over sequences on one long-lived IdP (metadata source re-loaded with another signing key between two signed requests); plus the enumerated catalogue of XSW constructions (original parked in 7 places x 4 ID modes x 4 signature modes x 2 positions x stripped or not) over a signed request of every type and binding. Non-trivial = a mutation or a signature requirement is involved; '
         'distinct = distinct case.')
 ASSUMPTIONS = ['xmlsec1 stand-in; frozen clock; signature coverage re-checked with the independent predicate of C01 on the request element',
                'want_authn_requests_only_with_valid_cert is generated without a certificate authority configured (the certificate check then passes trivially; signatures must still verify)']
@@ -244,6 +244,56 @@ def known_match(part, case, v):
     return None
 
 
+def rollover_cases():
+    out = []
+    for first in (0, 3):
+        for second in (0, 3, 4):
+            for warm in (True, False):
+                for binding in ('post', 'redirect'):
+                    if first != second:
+                        out.append({'first': first, 'second': second, 'warm': warm, 'binding': binding})
+    return out
+
+
+def run_rollover(case):
+    """one long-lived IdP whose metadata source for the SP is re-loaded with another signing key between two messages (key roll-over):
+    after the reload only the key the metadata holds *now* authenticates the SP's signed requests"""
+    import os
+    world.install_inprocess_tool()
+    clock.install()
+    clock.set_now(NOW)
+    path = os.path.join(os.getcwd(), 'sp-md-%d.xml' % os.getpid())
+
+    def write(k):
+        with open(path, 'w') as f:
+            f.write(build.entity_xml({'entityid': SPE, 'sp': {'keys': [('signing', k)], 'acs': [(world.POST, spside.ACS_POST, 0, True)]}}))
+    write(case['first'])
+    conf = world.idp_conf(dict(world.DEFAULT_IDP, sso=[(ENDPOINTS[('authn', 'redirect')], world.REDIRECT), (ENDPOINTS[('authn', 'post')], world.POST)]), [])
+    conf['metadata'] = {'local': [path]}
+    idp = world.make_idp(conf)
+
+    def send(k):
+        f = {'id': 'id-q-%d' % k, 'issue_instant': build.ts(NOW), 'destination': ENDPOINTS[('authn', case['binding'])], 'issuer': SPE,
+             'signature': build.sig_template('id-q-%d' % k, 'sha256', ('x509', world.cert_body(k)))}
+        xml = build.sign(render('authn', f), NODE['authn'], f['id'], k)
+        payload = build.b64(xml) if case['binding'] == 'post' else build.deflate_b64(xml)
+        try:
+            r = idp.parse_authn_request(payload, world.POST if case['binding'] == 'post' else world.REDIRECT)
+            return r is not None and getattr(r, 'message', None) is not None
+        except Exception:
+            return False
+    if case['warm'] and not send(case['first']):
+        raise Violation('valid-request-refused', 'request signed with the key the metadata holds (k%d) refused' % case['first'])
+    write(case['second'])
+    idp.metadata.load('local', path)
+    if send(case['first']):
+        raise Violation('retired-key-accepted', 'after the metadata was re-loaded with key k%d for the SP, a request signed with the retired key k%d was handed over%s'
+                        % (case['second'], case['first'], ' (a request under the old key had been verified before the reload)' if case['warm'] else ''))
+    if not send(case['second']):
+        raise Violation('valid-request-refused', 'after the reload a request signed with the current key k%d is refused' % case['second'])
+    return 'rollover|%s' % ('warm' if case['warm'] else 'cold'), True
+
+
 def xsw_catalogue(full):
     """every signature-wrapping construction of harness.xmlmut.xsw over a correctly signed request of every type and binding"""
     out = []
@@ -265,5 +315,6 @@ def xsw_catalogue(full):
 
 def parts(tier):
     quick = tier != 'thorough'
-    return [Part('xsw-catalogue', run, cases=lambda: xsw_catalogue(not quick), exhaustive=True),
+    return [Part('key-rollover', run_rollover, cases=rollover_cases, exhaustive=True),
+            Part('xsw-catalogue', run, cases=lambda: xsw_catalogue(not quick), exhaustive=True),
             Part('requests', run, strategy=case_strategy, examples=4000 if quick else 100000)]
